@@ -236,10 +236,14 @@ def submitter(r, prefixes):
 
 def c06(r):
     submitter(r, ["C06."])
+    if r.tier == "thorough":
+        r.apalache_inductive("WatermarkInd", implied=("WmSound", "InclSound"))
 
 
 def c07(r):
     submitter(r, ["C07."])
+    # unbounded in chain length: the watermark / DA-included discipline as an inductive invariant
+    r.apalache_inductive("WatermarkInd", implied=("WmSound", "InclSound"))
 
 
 def c08(r):
